@@ -1210,7 +1210,9 @@ def run_c04(ctx):
                 if (a2 < 0) != nd['is_hole']:
                     # "smaller than the rounding band": tiny, or so thin that no point of it is more than 2 units from its own boundary
                     sub_band = abs(a2) <= 25 or not fw.confirm_region([[nd['poly']]], geom.closed_edges([nd['poly']]), 4, (lambda w: w[0] == 0), None)
-                    viol.append({'key': 'sub-band-polygon-misparented' if sub_band else key, 'kind': 'hole-orientation', 'text': 'node %s reports IsHole()=%s but its exact doubled area is %d' % (nd['poly'][:4], nd['is_hole'], a2),
+                    par = m['nodes'][nd['parent']]['poly'] if isinstance(nd.get('parent'), int) and 0 <= nd['parent'] < len(m['nodes']) else None
+                    touch = (not sub_band) and par is not None and vote_inconclusive(nd['poly'], par)
+                    viol.append({'key': 'sub-band-polygon-misparented' if sub_band else (TOUCH_KEY if touch else key), 'kind': 'hole-orientation', 'text': 'node %s reports IsHole()=%s but its exact doubled area is %d' % (nd['poly'][:4], nd['is_hole'], a2),
                                  'detail': {'corpus_entry': entry, 'nodes': m['nodes']}})
                     break
             continue
@@ -1226,7 +1228,10 @@ def run_c04(ctx):
             r2 = fw.recheck_deeper(ctx['root'], ctx['outdir'], [cid]).get(cid, '')
             if r2.startswith('OK'):
                 continue
-        v = {'key': sweep_key(m, conf, key), 'kind': 'nesting-' + m['what'], 'detail': {'corpus_entry': entry, 'node': m['node'], 'other': m['other'], 'nodes': m['nodes'], 'checker': res, 'confirmed': conf}}
+        k4 = sweep_key(m, conf, key)
+        if k4 == key and m['what'] == 'parent' and vote_inconclusive(m['node'], m['other']):
+            k4 = TOUCH_KEY
+        v = {'key': k4, 'kind': 'nesting-' + m['what'], 'detail': {'corpus_entry': entry, 'node': m['node'], 'other': m['other'], 'nodes': m['nodes'], 'checker': res, 'confirmed': conf}}
         if conf:
             v['text'] = '%s at point (%s, %s) (windings %s): node %s vs %s' % (txt, conf['point'][0], conf['point'][1], conf['windings'], m['node'][:4], m['other'][:4])
         else:
@@ -1235,6 +1240,28 @@ def run_c04(ctx):
         viol.append(v)
     ctx['nontrivial'] += len(seen)
     return viol
+
+
+TOUCH_KEY = 'owner-vote-inconclusive-touching-ring'
+
+
+def _on_ring(q, ring):
+    n = len(ring)
+    for i in range(n):
+        a, b = ring[i], ring[(i + 1) % n]
+        if (b[0] - a[0]) * (q[1] - a[1]) - (b[1] - a[1]) * (q[0] - a[0]) == 0 and min(a[0], b[0]) <= q[0] <= max(a[0], b[0]) and min(a[1], b[1]) <= q[1] <= max(a[1], b[1]):
+            return True
+    return False
+
+
+def vote_inconclusive(child, parent):
+    """engine.go:path1InsidePath2 decides 'child inside parent?' by the per-vertex verdicts of the child against the
+    parent's ring; when at most one vertex of the child lies off that ring the vote is inconclusive and the answer comes
+    from Path2ContainsPath1's last resort, the midpoint of the child's BOUNDS (which need not be a point of the child)"""
+    if not child or not parent:
+        return False
+    off = sum(1 for q in child if not _on_ring(q, parent))
+    return off <= 1
 
 
 # ------------------------------------------------------------------ C05 / C10 (offsetting)
